@@ -1,14 +1,33 @@
-"""C12 - condition() picks one admissible branch (temporary assembly for testing)."""
+"""C12 - condition() picks one admissible branch (structure of condition(), the relation API and the merged
+transactions; the group-merging algorithm itself is not decided)."""
 
 from . import core, core2, core3, core4
+
+S = core4.SIMUL
 
 
 def check(ctx):
     core4.condition_branches(ctx, "C12")
     core4.simultaneous_relations(ctx, "C12")
     core4.merged_transactions(ctx, "C12")
-    core4.connect_component(ctx, "C12")
-    core4.library_ordering_rule(ctx, "C12")
+    core2.mgr_ready_dependencies(ctx, "C12")
+    core2.body_wrappers(ctx, "C12")
+    core.cg_priority_passthrough(ctx, "C12")
 
 
-MUTANTS = []
+MUTANTS = [
+    ("default-ready-any", S, "ready.eq(cond if cond is not None else ~Cat(*conds).any())", "ready.eq(cond if cond is not None else ~Cat(*conds).all())"),
+    ("default-ready-always", S, "ready.eq(cond if cond is not None else ~Cat(*conds).any())", "ready.eq(cond if cond is not None else 1)"),
+    ("conds-not-recorded-with-priority", S, "        conds.append(ready)\n", "        if not priority:\n            conds.append(ready)\n"),
+    ("priority-chain-from-first", S, "transactions[-1].schedule_before(transaction._body)", "transactions[0].schedule_before(transaction._body)"),
+    ("priority-chain-always", S, "        if transactions and priority:", "        if transactions:"),
+    ("priority-chain-never", S, "        if transactions and priority:", "        if transactions and priority and nonblocking:"),
+    ("nonblocking-no-default", S, "    if nonblocking and not last:\n        with branch():\n            pass\n", ""),
+    ("blocking-gets-default", S, "    if nonblocking and not last:", "    if not last:"),
+    ("alternatives-plain-simultaneous", S, "    this.simultaneous_alternatives(*transactions)", "    this.simultaneous(*transactions)"),
+    ("alternatives-not-independent", core.TBASE, "        self.simultaneous(*others)\n        others[0]._independent(*others[1:])", "        self.simultaneous(*others)"),
+    ("simultaneous-one-directional", core.TBASE, "        for other in others:\n            other.simultaneous_list.append(self)  # type: ignore\n", ""),
+    ("branch-ready-ignored", S, ".body(m, ready=ready):\n            yield", ".body(m):\n            yield"),
+    ("merged-calls-unconditional", core.MANAGER, "methods[transaction](m, enable_call=Cat(dep.run for dep in nontrivial_deps).all())", "methods[transaction](m, enable_call=Cat(dep.run for dep in nontrivial_deps).any())"),
+    ("after-catch-all-accepted", S, "        if last:\n            raise RuntimeError(\"Condition clause added after catch-all\")\n", ""),
+]
